@@ -160,7 +160,7 @@ CLAIMS['C05'] = dict(
     note='Bounds: lengths 0..3 (0..4 thorough), grids <= 1x3 quick / 2x2 thorough, orders 0..12. Instances that exhaust their time budget are listed as '
          'inconclusive, never as passed. malloc never fails; Cython-generated code trusted. '
          'Wrapper-side guards (zero-member ensembles, npoints, length mismatches) are validated with a recording '
-         'stand-in on every run. Two listed known findings (voronoi dead read, getdate out-of-range cast).',
+         'stand-in on every run. The two former known findings (voronoi dead read, getdate out-of-range cast) are repaired; no open finding is listed.',
     technique=TECH_A, engine='llir', ref='DESIGN.md section 3, C05')
 
 CLAIMS['C19'] = dict(
